@@ -122,6 +122,34 @@ def dtype_consistent(model):
   return pr
 
 
+def qparams_prepareable(model):
+  """What the LiteRT interpreter builder (ParseQuantization) demands of every
+  tensor's quantization parameters before any kernel runs: as many zero points
+  as scales, and with more than one scale a quantized dimension inside the
+  tensor's rank whose extent equals the number of scales."""
+  pr = []
+  for si, sg in enumerate(model.subgraphs):
+    for ti, t in enumerate(sg.tensors):
+      q = t.quantization
+      if q is None or q.scale is None or len(q.scale) == 0:
+        continue
+      ns = len(q.scale)
+      nz = 0 if q.zeroPoint is None else len(q.zeroPoint)
+      if nz != ns:
+        pr.append(f'sg{si} tensor {tname(t)!r}: {nz} zero points for {ns} '
+                  'scales')
+      if ns > 1:
+        qd = q.quantizedDimension
+        shape = [int(x) for x in (t.shape if t.shape is not None else [])]
+        if not 0 <= qd < len(shape):
+          pr.append(f'sg{si} tensor {tname(t)!r}: {ns} scales but quantized '
+                    f'dimension {qd} outside rank {len(shape)}')
+        elif shape[qd] != ns:
+          pr.append(f'sg{si} tensor {tname(t)!r}: {ns} scales but dimension '
+                    f'{qd} has extent {shape[qd]}')
+  return pr
+
+
 def _code(model, op):
   return model.operatorCodes[op.opcodeIndex].builtinCode
 
